@@ -56,7 +56,8 @@ def c04_groups(tier):
              cases=[dict(what='tree', shape=s, classes=c, meta=True, unknown=True, service=True, row=r) for s, c in shapes for r in range(math.factorial(len(s)))], budget=900),
         dict(id='M9.prop', desc='PROP column of each wire type written by a spec encoder (docs/binary.md) decodes to bit-identical values under the given name, for unknown classes',
              bounds='2 instances, every value symbolic (all bit patterns); kinds: %s' % ', '.join(kinds),
-             cases=[dict(what='prop', kind=k, n=2, opts=KIND_OPTS.get(k, {})) for k in kinds], budget=600),
+             cases=[dict(what='prop', kind=k, n=2, opts=KIND_OPTS.get(k, {})) for k in kinds if k != 'Content'] +
+                   [dict(what='prop', kind='Content', n=len(t), opts={'types': t}) for t in ([0, 1], [1, 1], [2, 2], [2, 1, 2])], budget=600),
         long_group(),
         dict(id='M9.widen', desc='Int32 column for a property the database declares Int64, Float32 column for one declared Float64: loaded widened exactly (NaN stays NaN)',
              bounds='2 instances, all bit patterns; custom database with class A, property P',
@@ -91,3 +92,35 @@ def long_group():
     return dict(id='M9.long', desc='String / NumberSequence / ColorSequence columns with lengths at the boundary constants of the reader code (caps, limits) decode completely and bit-identically',
                 bounds='1 instance; lengths %s (65 and c, c+1 for the constants %s mined from the MIR of the reader)' % (sizes, consts),
                 cases=[dict(what='prop', kind=k, n=1, opts={'len': [n]}, range_limit=n + 8) for k in ('String', 'NumberSequence', 'ColorSequence') for n in sizes], budget=900)
+
+
+SER_TREES = [
+    dict(shape=[-1, 0], classes=['DataModel', 'A']),
+    dict(shape=[-1, 0, 0], classes=['DataModel', 'B', 'A']),
+    dict(shape=[-1, 0, 1, 1], classes=['DataModel', 'A', 'B', 'A']),
+    dict(shape=[-1, 0, 1, 2], classes=['DataModel', 'A', 'A', 'B']),
+    dict(shape=[-1, 0, 0, 2], classes=['DataModel', 'A', 'B', 'A'], refs={1: 3, 3: 'none', 2: 'outside'}),
+    dict(shape=[-1, 0, 0, 2], classes=['DataModel', 'A', 'B', 'A'], refs={1: 2, 3: 1}, roots=[2]),
+    dict(shape=[-1, 0, 0, 1, 1, 2], classes=['DataModel', 'B', 'A', 'C', 'A', 'B'], refs={3: 5, 5: 3, 4: 4}),
+    dict(shape=[-1, 0, 1, 0, 3], classes=['DataModel', 'A', 'A', 'A', 'B'], refs={2: 4, 4: 1}, roots=[3, 1]),
+]
+
+
+def ser_groups(tier, prop):
+    """serializer-side obligations (vlib/mirsym/sercheck.py); prop = 'C03' (written bytes vs. docs/binary.md) or 'C01' (write + read)"""
+    kinds = [k for k in B.FIELDS if k not in ('Content', 'Ref')]
+    what = 'written file = what docs/binary.md specifies' if prop == 'C03' else 'write then read gives back the same DOM'
+    return [
+        dict(id='M3.values' if prop == 'C03' else 'M1.values',
+             desc='Serializer::serialize on 2 instances carrying one property of each value type, all value bits symbolic: ' +
+                  ('header counts, one INST chunk, one PROP chunk per property with exactly one value per instance, PRNT, END; the Values section equals the documented encoding of the values' if prop == 'C03'
+                   else 'the real reader returns the same names, classes and bit-identical values'),
+             bounds='unknown class, compression off, 2 instances; kinds: %s (CFrame: general matrices, entries of magnitude >= 2)' % ', '.join(kinds),
+             cases=[dict(what='ser', kind=k, n=2, opts=KIND_OPTS.get(k, {}), prop=prop) for k in kinds], budget=600),
+        dict(id='M3.tree' if prop == 'C03' else 'M2.tree',
+             desc='forests with several classes, Ref properties (to written instances, outside the written set, null) and sub-selections of roots: ' +
+                  ('unique class ids, every instance once in INST and PRNT, children before parents, sibling order, referent values of Ref properties' if prop == 'C03'
+                   else 'root order, child order, names, classes survive; references are rewired to the new instances or null'),
+             bounds='%d forests of <= 5 instances, symbolic Refs' % len(SER_TREES),
+             cases=[dict(what='sertree', prop=prop, **t) for t in SER_TREES], budget=600),
+    ]
